@@ -102,6 +102,7 @@ class Unnest(object):
             p = e.pattern(pi)
             terms = [self.tr(z3.substitute_vars(p.arg(k), *reversed(old))) for k in range(p.num_args())]
             pats.append(z3.MultiPattern(*terms) if len(terms) > 1 else terms[0])
+        if e.is_lambda(): return z3.Lambda(new, body)
         mk = z3.ForAll if e.is_forall() else z3.Exists
         if e.is_forall():
             try: return mk(new, body, patterns=pats) if pats else mk(new, body)
